@@ -681,6 +681,13 @@ if __name__ == "__main__":
 
 
 # ------------------------------------------------------------------------------------------------ matcher (PEG semantics on the AST)
+class Caps(dict):
+    """label -> matched text; `slices` names the labels that capture text itself (`x:$(..)`) rather than the value of a rule call"""
+    def __init__(self):
+        dict.__init__(self)
+        self.slices = set()
+
+
 class MatchTrace:
     """what a successful match went through: (rule, action text, {label: captured text}) for every sequence with an action"""
     def __init__(self):
@@ -719,7 +726,7 @@ def peg_match(g, node, s, pos, tr, cond=None, rule=None, depth=0):
         return None
     if k == "seq":
         cur = pos
-        caps = {}
+        caps = Caps()
         mark = len(tr.actions)
         for lab, e in node[1]:
             end = peg_match(g, e, s, cur, tr, cond, rule, depth + 1)
@@ -728,6 +735,8 @@ def peg_match(g, node, s, pos, tr, cond=None, rule=None, depth=0):
                 return None
             if lab:
                 caps[lab] = s[cur:end]
+                if e[0] == "slice":
+                    caps.slices.add(lab)
             cur = end
         if node[2] is not None:
             if node[2]["cond"]:
@@ -775,7 +784,106 @@ def peg_match(g, node, s, pos, tr, cond=None, rule=None, depth=0):
             cur = e
             n += 1
         return cur if n >= node[2] else None
-    return None          # prec / @ : not needed for the token-level rules this is used on
+    if k == "prec":
+        return _prec_match(g, node, s, pos, 0, tr, cond, rule, depth + 1)
+    return None
+
+
+def _prec_rows(node):
+    """rust-peg's translation of precedence!{}: rows that start with an operand marker are tried after an operand has been parsed
+    (infix / postfix, gated by their level), all others before it (prefix operators and atoms, in source order, not gated)."""
+    pre, post = [], []
+    for li, lv in enumerate(node[1]):
+        for row in lv:
+            el = row["elems"]
+            first, last = el[0][1][0], el[-1][1][0]
+            if first in ("@", "(@)") and last in ("@", "(@)") and len(el) >= 3:
+                # left-assoc  x:(@) .. y:@  parses y one level up, right-assoc  x:@ .. y:(@)  at the same level
+                post.append((li, "infix", li + 1 if (first, last) == ("(@)", "@") else li, row))
+            elif first in ("@", "(@)") and len(el) >= 2:
+                post.append((li, "postfix", None, row))
+            elif last in ("@", "(@)") and len(el) >= 2:
+                pre.append((li, "prefix", li if last == "(@)" else li + 1, row))
+            else:
+                pre.append((li, "atom", None, row))
+    return pre, post
+
+
+def _prec_elems(g, elems, s, pos, tr, cond, rule, depth, caps):
+    cur = pos
+    for lab, e in elems:
+        end = peg_match(g, e, s, cur, tr, cond, rule, depth)
+        if end is None:
+            return None
+        if lab:
+            caps[lab] = s[cur:end]
+            if e[0] == "slice":
+                caps.slices.add(lab)
+        cur = end
+    return cur
+
+
+def _prec_action(row, rule, caps, tr, cond, mark):
+    act = row["action"]
+    if act is not None:
+        if act["cond"]:
+            v = cond(rule, act, caps) if cond else None
+            if v is None:
+                tr.unknown_conditions.append((rule, act["text"]))
+            elif not v:
+                del tr.actions[mark:]
+                return False
+        tr.actions.append((rule, act["text"], caps))
+    return True
+
+
+def _prec_match(g, node, s, pos, min_prec, tr, cond, rule, depth):
+    if depth > 200:
+        return None
+    pre, post = _prec_rows(node)
+    cur = None
+    start = pos
+    for li, kind, nxt, row in pre:
+        mark = len(tr.actions)
+        caps = Caps()
+        el = row["elems"]
+        body = el[:-1] if kind == "prefix" else el
+        e = _prec_elems(g, body, s, pos, tr, cond, rule, depth + 1, caps)
+        if e is not None and kind == "prefix":
+            e2 = _prec_match(g, node, s, e, nxt, tr, cond, rule, depth + 1)
+            if e2 is not None and el[-1][0]:
+                caps[el[-1][0]] = s[e:e2]
+            e = e2
+        if e is not None and _prec_action(row, rule, caps, tr, cond, mark):
+            cur = e
+            break
+        del tr.actions[mark:]
+    if cur is None:
+        return None
+    while True:
+        advanced = False
+        for li, kind, nxt, row in post:
+            if li < min_prec:
+                continue
+            mark = len(tr.actions)
+            el = row["elems"]
+            caps = Caps()
+            if el[0][0]:
+                caps[el[0][0]] = s[start:cur]
+            body = el[1:-1] if kind == "infix" else el[1:]
+            e = _prec_elems(g, body, s, cur, tr, cond, rule, depth + 1, caps)
+            if e is not None and kind == "infix":
+                e2 = _prec_match(g, node, s, e, nxt, tr, cond, rule, depth + 1)
+                if e2 is not None and el[-1][0]:
+                    caps[el[-1][0]] = s[e:e2]
+                e = e2
+            if e is not None and _prec_action(row, rule, caps, tr, cond, mark):
+                cur = e
+                advanced = True
+                break
+            del tr.actions[mark:]
+        if not advanced:
+            return cur
 
 
 def full_match(g, rule, s, cond=None):
